@@ -906,6 +906,19 @@ pub mod std {
 
             spec fn seek_ok(&self, before: Self, after: Self, pos: SeekFrom, r: Result<u64>) -> bool;
 
+            /// `stream_position()` is `seek(SeekFrom::Current(0))`: the handle does not move.
+            fn stream_position(&mut self, Tracked(w): Tracked<&mut World>) -> (r: Result<u64>)
+                requires
+                    old(w).inv(),
+                ensures
+                    final(w).inv(),
+                    final(w).same_fs(*old(w)),
+                    final(w).kept(*old(w)) && final(w).listed == old(w).listed && final(w).published == old(w).published && final(w).now == old(w).now,
+                    final(w).opens == old(w).opens && final(w).steps == old(w).steps + 1,
+                    final(w).hard_faults == old(w).hard_faults + if r.is_err() { 1nat } else { 0nat },
+                    old(self).seek_ok(*old(self), *final(self), SeekFrom::Current(0), r),
+            ;
+
             /// `rewind()` is `seek(SeekFrom::Start(0))` with the position dropped (the provided method of std).
             fn rewind(&mut self, Tracked(w): Tracked<&mut World>) -> (r: Result<()>)
                 requires
@@ -1009,6 +1022,29 @@ pub mod std {
             }
         }
 
+        /// `(&file).seek(..)`: the shared-reference implementation of std moves the same descriptor.
+        impl Seek for &std::fs::File {
+            open spec fn seek_ok(&self, before: Self, after: Self, pos: SeekFrom, r: Result<u64>) -> bool {
+                &&& after.ino() == before.ino()
+                &&& after.can_write() == before.can_write()
+            }
+
+            #[verifier::external_body]
+            fn seek(&mut self, pos: SeekFrom, Tracked(w): Tracked<&mut World>) -> (r: Result<u64>) {
+                unimplemented!()
+            }
+
+            #[verifier::external_body]
+            fn rewind(&mut self, Tracked(w): Tracked<&mut World>) -> (r: Result<()>) {
+                unimplemented!()
+            }
+
+            #[verifier::external_body]
+            fn stream_position(&mut self, Tracked(w): Tracked<&mut World>) -> (r: Result<u64>) {
+                unimplemented!()
+            }
+        }
+
         impl Seek for std::fs::File {
             open spec fn seek_ok(&self, before: Self, after: Self, pos: SeekFrom, r: Result<u64>) -> bool {
                 &&& after.ino() == before.ino()
@@ -1023,6 +1059,11 @@ pub mod std {
 
             #[verifier::external_body]
             fn rewind(&mut self, Tracked(w): Tracked<&mut World>) -> (r: Result<()>) {
+                unimplemented!()
+            }
+
+            #[verifier::external_body]
+            fn stream_position(&mut self, Tracked(w): Tracked<&mut World>) -> (r: Result<u64>) {
                 unimplemented!()
             }
         }
@@ -1058,6 +1099,17 @@ pub mod std {
             pub fn is_dir(&self) -> (r: bool)
                 ensures
                     r == self.view().is_dir,
+            {
+                unimplemented!()
+            }
+
+            /// st_size (nothing is assumed about it).
+            pub uninterp spec fn size(&self) -> u64;
+
+            #[verifier::external_body]
+            pub fn len(&self) -> (r: u64)
+                ensures
+                    r == self.size(),
             {
                 unimplemented!()
             }
@@ -1279,6 +1331,44 @@ pub mod std {
             pub fn unlock(&self) -> (r: std::io::Result<()>)
                 requires
                     false,   // @L C06 C20:no-operation-ever-takes-a-lock
+            {
+                unimplemented!()
+            }
+
+            /// ftruncate(fd, size).  PROTOCOL (C01 C03 C19): like every write, only on a file no reader can see.  The bytes
+            /// change (a prefix, or zero padding), the file is dirty again.
+            #[verifier::external_body]
+            pub fn set_len(&self, size: u64, Tracked(w): Tracked<&mut World>) -> (r: std::io::Result<()>)
+                requires
+                    old(w).inv(),
+                    old(w).inodes.contains_key(self.ino()),
+                    self.can_write() && old(w).invisible(self.ino()),   // @L C01 C03 C19:only-a-file-no-reader-can-see-is-ever-written
+                ensures
+                    final(w).stepped(*old(w)),
+                    final(w).inv(),
+                    final(w).now == old(w).now,
+                    final(w).listed == old(w).listed,
+                    final(w).opens == old(w).opens,
+                    final(w).published == old(w).published,
+                    final(w).hard_faults == old(w).hard_faults + if r.is_err() { 1nat } else { 0nat },
+                    match r {
+                        Ok(()) => {
+                            &&& final(w).only_inode_changed(
+                                *old(w),
+                                self.ino(),
+                                Inode {
+                                    content: final(w).inodes[self.ino()].content,
+                                    mtime: final(w).inodes[self.ino()].mtime,
+                                    synced: false,
+                                    ..old(w).inodes[self.ino()]
+                                },
+                            )
+                            &&& final(w).inodes[self.ino()].content.len() == size
+                            &&& (size as int <= old(w).inodes[self.ino()].content.len() ==> final(w).inodes[self.ino()].content == old(w).inodes[self.ino()].content.take(size as int))
+                            &&& (final(w).inodes[self.ino()].mtime == old(w).inodes[self.ino()].mtime || final(w).inodes[self.ino()].mtime == trunc(old(w).now, old(w).gran))
+                        },
+                        Err(e) => final(w).same_fs(*old(w)),
+                    },
             {
                 unimplemented!()
             }
